@@ -50,7 +50,7 @@ func c15RuleJSON(r c15Rule) kit.M {
 		m["names"] = kit.L{"a"}
 	case "ns-n1+names-a,b":
 		m["namespace"] = "n1"
-		m["names"] = kit.L{"a", "b"}
+		m["names"] = kit.L{"b", "a"} // (a set: listed in descending order)
 	case "INVALID-labels+names":
 		m["labelSelector"] = kit.M{"matchLabels": kit.M{"rel": "1"}}
 		m["names"] = kit.L{"a"}
